@@ -19,6 +19,8 @@ def main():
     d = os.path.abspath(sys.argv[1])
     props = None
     tier = "quick"
+    do_validate = "--only-checks" not in sys.argv
+    do_checks = "--only-validate" not in sys.argv
     for i, a in enumerate(sys.argv):
         if a == "--props":
             props = sys.argv[i + 1].split(",")
@@ -44,13 +46,17 @@ def main():
             return
         rc1, o1 = sh([PY, demo], cwd=wt, env=env, timeout=600)
         res["demo_patched_rc"] = rc1
-        rc, out = sh([PY, "-m", "pytest", "-q", "-p", "no:cacheprovider", "--timeout=900", "--deselect", "tests/test_architecture.py"], cwd=wt, env=env)
-        tail = out.strip().split("\n")[-1]
-        res["suite"] = tail
-        res["suite_baseline"] = "5 failed, 851 passed" in tail
-        failed = sorted(l.split("::")[-1] for l in out.split("\n") if l.startswith("FAILED"))
-        res["suite_failed_only_module_graph"] = all("test_module_graph" in l for l in out.split("\n") if l.startswith("FAILED"))
-        res["valid"] = rc0 == 0 and rc1 != 0 and res["suite_baseline"] and res["suite_failed_only_module_graph"]
+        if do_validate:
+            rc, out = sh([PY, "-m", "pytest", "-q", "-p", "no:cacheprovider", "--timeout=900", "-n", "4", "--deselect", "tests/test_architecture.py"], cwd=wt, env=env)
+            tail = out.strip().split("\n")[-1]
+            res["suite"] = tail
+            res["suite_baseline"] = "5 failed, 851 passed" in tail
+            failed = sorted(l.split("::")[-1] for l in out.split("\n") if l.startswith("FAILED"))
+            res["suite_failed_only_module_graph"] = all("test_module_graph" in l for l in out.split("\n") if l.startswith("FAILED"))
+            res["valid"] = rc0 == 0 and rc1 != 0 and res["suite_baseline"] and res["suite_failed_only_module_graph"]
+        if not do_checks:
+            print(json.dumps(res))
+            return
         checks = {}
         for p in props:
             t0 = time.time()
@@ -75,8 +81,9 @@ def main():
     finally:
         sh(["git", "-C", "/repo", "worktree", "remove", "--force", wt])
         shutil.rmtree(wt, ignore_errors=True)
-        # the translator may have rewritten the generated file from the patched tree: restore from /repo
-        sh([PY, "-m", "harness.translate_flags"], cwd=VERIF)
+        if do_checks:
+            # the translator may have rewritten the generated file from the patched tree: restore from /repo
+            sh([PY, "-m", "harness.translate_flags"], cwd=VERIF)
 
 
 main()
